@@ -606,6 +606,12 @@ func (r *FnRun) callByContract(fr *Frame, st *State, ct *Contract, names []strin
 					r.havocInferred(st, kp)
 				}
 			}
+			for g := range ms.ghosts {
+				if gd, ok := r.e.cs.Ghosts[g]; ok && g != "held" {
+					old := r.ghostTerm(st, gd)
+					st.ghost[g] = r.fresh("G_"+g, old.Sort)
+				}
+			}
 			r.note("%s has no modifies clause: inferred frame used at call sites", ct.Name)
 		} else if ct.Kind != "func" {
 			// an assumed (interface / external) contract states everything its
